@@ -204,7 +204,7 @@ fn gen_stack(st: u64, user: bool, scratch_dir: &std::path::Path) -> Stack {
         // references from user words to user words of the same dictionary: these are the ones LexiconSet re-stamps
         let n = lex.rows.len() as u64;
         for row in lex.rows.iter_mut() {
-            if row.mode != "A" && row.mode != "a" {
+            if row.mode.trim() != "A" && row.mode.trim() != "a" {
                 match r.below(4) {
                     0 if row.split_a.len() < 127 => row.split_a.push(c05::Ref::User(r.below(n) as u32)),
                     1 if row.split_b.len() < 127 => row.split_b.push(c05::Ref::User(r.below(n) as u32)),
